@@ -62,6 +62,7 @@ type gSchema struct {
 
 type profile struct {
 	pFail, pIll, pDir, pAlias, pFrag, pInline, pArgs, pAny, pBadCall, pNullObj float64
+	noWrongType                                                                bool // never put a node of another object type where a type is expected
 	maxDepth                                                                   int
 	defect                                                                     string // C10: inject one defect
 	calls                                                                      int    // number of calls in the history (C11)
@@ -410,7 +411,7 @@ func genGraph(r *rand.Rand, s *gSchema, p *profile) *gGraph {
 				return "nil"
 			}
 			ct := pick(r, poss)
-			if chance(r, 0.03) {
+			if !p.noWrongType && chance(r, 0.03) {
 				ct = pick(r, s.objects()) // possibly not a member / implementer
 			}
 			if chance(r, p.pNullObj) {
@@ -458,14 +459,14 @@ type gVar struct {
 }
 
 type docGen struct {
-	r      *rand.Rand
-	s      *gSchema
-	p      *profile
-	nextID int
-	vars   []gVar // of the operation being generated
-	frags  []sx.S
-	nfrag  int
-	feats  map[string]bool
+	r          *rand.Rand
+	s          *gSchema
+	p          *profile
+	nextID     int
+	vars       []gVar // of the operation being generated
+	frags      []sx.S
+	nfrag      int
+	feats      map[string]bool
 	defectInfo sx.S // the defect that has been injected (C10)
 }
 
@@ -613,7 +614,16 @@ func (d *docGen) sels(container int, depth int) []sx.S {
 			d.frags = append(d.frags, append(sx.L("frag", sx.A(name), sx.A(ct)), body...))
 			out = append(out, sx.L("fr", id, sx.A(name), dirs))
 		default:
-			if t.kind == "union" || len(t.fields) == 0 {
+			ft := t
+			if t.kind == "union" || t.kind == "iface" {
+				// ggql evaluates the selection set against each object's concrete type, so a field of one of the
+				// possible types can be selected directly (defined for some elements, undefined for others)
+				if poss := d.s.possible(container); len(poss) > 0 && chance(r, 0.35) {
+					ft = d.s.byID[pick(r, poss)]
+					d.feats["field-of-a-possible-type"] = true
+				}
+			}
+			if ft.kind == "union" || len(ft.fields) == 0 {
 				if used[0] && !allowDup {
 					continue
 				}
@@ -621,7 +631,7 @@ func (d *docGen) sels(container int, depth int) []sx.S {
 				out = append(out, sx.L("f", d.id(), "-", "0", sx.L("args"), sx.L("dirs")))
 				continue
 			}
-			f := t.fields[r.Intn(len(t.fields))]
+			f := ft.fields[r.Intn(len(ft.fields))]
 			alias := sx.S("-")
 			if chance(r, d.p.pAlias) || used[f.name] {
 				if a, ok := freshAlias(); ok {
@@ -1050,7 +1060,7 @@ func c09Gen(r *rand.Rand, tier string) []Case {
 	return cases
 }
 
-var profC10 = profile{pFail: 0.03, pIll: 0.01, pDir: 0.15, pAlias: 0.3, pFrag: 0.12, pInline: 0.15, pArgs: 0.85, pAny: 0.4, pBadCall: 0.0, pNullObj: 0.05, maxDepth: 4, calls: 1}
+var profC10 = profile{noWrongType: true, pFail: 0.03, pIll: 0.01, pDir: 0.15, pAlias: 0.3, pFrag: 0.12, pInline: 0.15, pArgs: 0.85, pAny: 0.4, pBadCall: 0.0, pNullObj: 0.05, maxDepth: 4, calls: 1}
 
 // c10Gen: valid documents with exactly one injected defect of the property's catalogue.
 func c10Gen(r *rand.Rand, tier string) []Case {
